@@ -152,5 +152,24 @@ Proof.
   - intro H. destruct (Qleb a b) eqn:E; [|reflexivity]. apply Qleb_iff in E. exfalso. apply (Qlt_not_le _ _ H E).
 Qed.
 
+Lemma qmin_le_l : forall a b, qmin a b <= a.
+Proof.
+  intros a b. unfold qmin. destruct (Qltb b a) eqn:E; [|apply Qle_refl].
+  apply Qltb_iff in E. apply Qlt_le_weak. exact E.
+Qed.
+Lemma qmin_le_r : forall a b, qmin a b <= b.
+Proof.
+  intros a b. unfold qmin. destruct (Qltb b a) eqn:E; [apply Qle_refl|]. apply Qltb_false_iff in E. exact E.
+Qed.
+Lemma qmax_ge_l : forall a b, a <= qmax a b.
+Proof.
+  intros a b. unfold qmax. destruct (Qltb a b) eqn:E; [|apply Qle_refl].
+  apply Qltb_iff in E. apply Qlt_le_weak. exact E.
+Qed.
+Lemma qmax_ge_r : forall a b, b <= qmax a b.
+Proof.
+  intros a b. unfold qmax. destruct (Qltb a b) eqn:E; [apply Qle_refl|]. apply Qltb_false_iff in E. exact E.
+Qed.
+
 (* canonical output of a rational for the harness: (numerator, denominator) in lowest terms *)
 Definition qout (q : Q) : Z * Z := let r := Qred q in (Qnum r, Zpos (Qden r)).
